@@ -51,6 +51,7 @@ type Upload struct {
 // unless Strict is false).
 type Features struct {
 	MountGrant       bool   // cross-repo mount is granted when the source repo holds the blob
+	MountRefuseFirst int    // the first k cross-repo mount requests of this host are declined (a session is opened instead), later ones follow MountGrant
 	AnonMountStatus  int    // mount without from=: 0 → 202 new session; 201 → granted when any repo holds it; 4xx → that status
 	TagDelete        bool   // DELETE /manifests/<tag> supported (else 405)
 	NoManifestDelete bool   // DELETE /manifests/<digest> answers 405
@@ -163,6 +164,7 @@ type Host struct {
 
 	seq       int
 	uploadSeq int
+	mountSeen int // cross-repository mount requests received so far
 }
 
 // Repo returns (creating if needed) a repository.
